@@ -416,6 +416,17 @@ def special_documents():
   docs.append(("multiline-group", "gfa2",
                [GFA2_SEG["a"], GFA2_SEG["b"], GFA2_SEG["c"],
                 T(["U", "u1", "a b"]), T(["U", "u1", "c"])]))
+  # custom records whose record type has several characters and begins with
+  # the letter of a predefined record type; before and after the line that
+  # fixes the version
+  customs = [T(["HDR", "foo", "xx:i:1"]), T(["SEQ", "a", "b c"]),
+             T(["Lx", "1", "+", "2"]), T(["PP", "p", "a+,b+"]),
+             T(["E2", "e", "zz:Z:x"]), T(["X", "one"]), T(["x1", "f", "aa:A:c"])]
+  for c in customs:
+    docs.append(("custom-first", "gfa2", [c, GFA2_SEG["a"]]))
+    docs.append(("custom-last", "gfa2", [GFA2_SEG["a"], c]))
+    docs.append(("custom-header", "gfa2", [T(["H", "VN:Z:2.0"]), c]))
+  docs.append(("custom-first", "gfa2", customs + [GFA2_SEG["a"]]))
   return docs
 
 
